@@ -32,14 +32,14 @@ Section sess.
   Lemma dfold_LR (P : Z → Prop) B : ∀ s outs t D s' outs',
     fold_left (dstep cfg) B (s, outs) = (s', outs') →
     STI s [] → SLI cfg s → STM P s → (∀ v, 0 < v → P (st_now s + v * second)) →
-    (∀ c, c ∈ B → ckey c ∈ D) → NoDup (ckey <$> B) → LR s D t → fails_ok X t →
+    (∀ c, c ∈ B → ckey c ∈ D) → NoDup (ckey <$> B) → LR s D t → fails_ok X t → t_pending t = [] →
     ∃ o', outs' = outs ++ o' ∧
       LR s' (Dfold D B) (done_list cfg i cause (comps o') t) ∧ fails_ok X (done_list cfg i cause (comps o') t) ∧
       st_now s' = st_now s ∧ st_shut s' = st_shut s ∧
       (∀ c, c ∈ comps o' → c_at c = st_now s ∧ rlock c ∧ c_wid c ∈ w_id <$> st_waiters s ∧ c_wid c ∉ w_id <$> st_waiters s') ∧
       (∀ w, w ∈ st_waiters s' → w ∈ st_waiters s) ∧ NoDup (c_wid <$> comps o') ∧ NoDup (w_id <$> st_waiters s').
   Proof.
-    induction B as [|c B IH]; intros s outs t D s' outs' Hf HT HL HM HP HB HBnd HLR HX.
+    induction B as [|c B IH]; intros s outs t D s' outs' Hf HT HL HM HP HB HBnd HLR HX Hpd.
     - simpl in Hf. injection Hf as <- <-. exists []. rewrite app_nil_r. split_and!; try done.
       + by intros c ?%elem_of_nil.
       + constructor.
@@ -49,7 +49,7 @@ Section sess.
       destruct (mgr_unlock cfg (cl_name c) (cl_key c) s) as [[s1 r] o1] eqn:Hm.
       assert (ckey c ∈ D) as HcD by (apply HB; left).
       pose proof (mgr_unlock_inv _ _ _ _ _ _ _ [] P Hm HT HL HM HP) as (HL1 & HM1 & [En1 Eg1] & HU1 & Hcase).
-      destruct (mgr_unlock_LR cfg i cause X _ _ s s1 r o1 D t Hm HT HcD HLR HX) as (-> & HLR1 & HX1 & _ & Hnl1 & Hcs1 & Hsub1 & Hnd1 & Hndw1).
+      destruct (mgr_unlock_LR cfg i cause X _ _ s s1 r o1 D t Hm HT HcD HLR HX Hpd) as (-> & HLR1 & HX1 & _ & Hnl1 & Hcs1 & Hsub1 & Hnd1 & Hndw1).
       destruct Hcase as [([e He] & _)|(_ & _ & HT1 & _)]; [done|].
       set (s2 := s1 <| st_timers := delete (tkey (cl_name c) (cl_key c)) (st_timers s1) |>) in *.
       assert (st_shut s1 = st_shut s) as Esh1.
@@ -78,6 +78,7 @@ Section sess.
       + done.
       + eapply (LR_cleanup cfg); [exact HLR1|exact Hnl1|done..|by left|by right].
       + done.
+      + by rewrite done_list_pending.
   Qed.
 End sess.
 
@@ -96,10 +97,9 @@ Section disc.
   Lemma track_disconnect_ok sid s s' o t :
     Inv cfg s → st_shut s = false → TR X cfg s t →
     disconnect cfg sid s = (s', o) →
-    (multi_grant (comps o) → X i "C03:not-fifo"%string) →
-    TR X cfg s' (track_step cfg i (EDisconnect sid) o t).
+    TR X cfg s' (track_step0 cfg i (EDisconnect sid) o t).
   Proof.
-    intros HI Hsh HT Hd HM. simpl. unfold disconnect in Hd.
+    intros HI Hsh HT Hd. simpl. unfold disconnect in Hd.
     destruct (cancel_waiters _ _ s) as [s1 o1] eqn:Hc. destruct (destroy_session cfg sid s1) as [s2 o2] eqn:Hds.
     injection Hd as <- <-.
     pose proof (Inv_QInv _ _ HI) as ((HTI & HLI & HVW) & HMM & _).
@@ -188,13 +188,14 @@ Section disc.
           apply (Hsid1 eq_refl h); [|done].
           assert (h ∈ t_holds t2) as Hh2 by (apply elem_of_lfilter in Hh; tauto).
           eapply giveups_no_holds; [|exact Hh2]. intros c Hcc. by destruct (Hcs1 c Hcc) as (_ & _ & _ & ?).
-        + done. }
+        + done.
+        + unfold t2. by rewrite done_list_pending. }
     assert (∀ c, c ∈ comps (o1 ++ o2) → c_at c = st_now s2 ∧ rlock c) as Hcs.
     { intros c. rewrite comps_app, En3. intros [Hcc|Hcc]%elem_of_app.
       - destruct (Hcs1 c Hcc) as (? & ? & _). done.
       - destruct (Hcs2 c Hcc) as (? & ? & _). done. }
     unfold t2 in HL3, HX3. rewrite <- done_list_app, <- comps_app in HL3, HX3.
-    eapply (finish_event X cfg i _ s2 (o1 ++ o2) t1 _ _ _ _ _ HL3 HX3 Hcs _ HTI); [by rewrite Ew1; apply HT|by rewrite En3|by rewrite En3|done|done].
+    eapply (finish_event X cfg i _ s2 (o1 ++ o2) t1 _ _ _ _ _ HL3 HX3 Hcs _ HTI); [by rewrite Ew1; apply HT|by rewrite En3|by rewrite En3|done].
     Unshelve.
     rewrite comps_app, fmap_app. apply NoDup_app. split; [done|]. split; [|done].
     intros x (c1 & -> & Hc1)%elem_of_list_fmap (c2 & E & Hc2)%elem_of_list_fmap.
